@@ -249,6 +249,45 @@ let op_tokenize = function
       "OK\t" ^ S.concat "," (L.map hex_of_text (Tokenize.tokenize Tokenize.default_is_word (text_of_hex line)))
   | _ -> "BADARGS"
 
+(* ---- option resolution (C13) *)
+let names_of s = if s = "" then [] else L.map (fun x -> n_of_int (int_of_string x)) (S.split_on_char ',' s)
+let optval s = if s = "-" then None else Some (n_of_int (int_of_string s))
+let optnames s = if s = "~" then None else Some (names_of s)
+let fields4 e = match S.split_on_char ':' e with [ a; b; c; d ] -> (a, b, c, d) | _ -> failwith ("bad entry " ^ e)
+
+let section_of e =
+  let v, ev, f, fl = fields4 e in
+  { Options.s_value = optval v; Options.s_env_value = optval ev; Options.s_features = optnames f; Options.s_flags = names_of fl }
+
+(* opt_resolve <builtins> <gitconfig> <cli> <default> <flag order> *)
+let op_opt_resolve = function
+  | [ bs; gc; cli; dflt; order ] ->
+      let builtins =
+        L.map (fun e ->
+            let id, v, ch, fl = fields4 e in
+            (n_of_int (int_of_string id), { Options.b_value = optval v; Options.b_features = names_of ch; Options.b_flags = names_of fl }))
+          (S.split_on_char ';' bs) in
+      let secs = S.split_on_char ';' gc in
+      let main = section_of (L.hd secs) in
+      let custom =
+        L.map (fun e -> let i = S.index e '=' in
+                        (n_of_int (int_of_string (S.sub e 0 i)), section_of (S.sub e (i + 1) (S.length e - i - 1))))
+          (L.tl secs) in
+      let g = { Options.main = main; Options.custom = custom } in
+      (match S.split_on_char ':' cli with
+       | [ v; f; e; fl; nog ] ->
+           let env =
+             if e = "~" then None
+             else Some (S.get e 0 = '+', names_of (S.sub e 1 (S.length e - 1))) in
+           let c = { Options.c_value = optval v; Options.c_features = optnames f; Options.c_env = env;
+                     Options.c_flags = names_of fl; Options.c_no_gitconfig = (nog = "1") } in
+           let fuel = nat_of_int 40 in
+           let feats = Options.gather builtins (names_of order) fuel c g in
+           let v = Options.resolve builtins (names_of order) fuel c g (n_of_int (int_of_string dflt)) in
+           "OK\t" ^ S.concat "," (L.map (fun n -> string_of_int (int_of_n n)) feats) ^ "\t" ^ string_of_int (int_of_n v)
+       | _ -> "BADCLI")
+  | _ -> "BADARGS"
+
 (* blame_run n keys gitflags *)
 let op_blame_run = function
   | [ n; keys; flags ] ->
@@ -269,6 +308,7 @@ let op_blame_spec = function
   | _ -> "BADARGS"
 
 let dispatch = function
+  | "opt_resolve" :: args -> op_opt_resolve args
   | "align_ops" :: args -> op_align_ops args
   | "tokenize" :: args -> op_tokenize args
   | "vte_strip" :: args -> op_vte_strip args
